@@ -213,7 +213,7 @@ func (m *RefM) Ambiguous(atom int) bool {
 	}
 	ngDone := false
 	for i := range m.St.Mode.Rules {
-		if m.IsNG(&m.St.Mode.Rules[i]) && m.C.Nullable(m.St.R[i]) {
+		if m.IsNG(&m.St.Mode.Rules[i]) && m.C.Nullable(m.St.R[i]) && m.C.NGLive(m.St.R[i]) {
 			ngDone = true
 		}
 	}
